@@ -170,13 +170,9 @@ func (f *Frame) next(x *ssa.Next) {
 		pos := s.hget(f.cur.heap, key, "Int")
 		str := it.Over.(S).T
 		ok := app("<", pos, app("slen", str))
-		r := s.freshConst("rune", "Int")
-		w := s.freshConst("width", "Int")
-		b0 := app("sat", str, pos)
-		f.assume(implies(ok, and(
-			implies(app("<", b0, "128"), and(eq(r, b0), eq(w, "1"))),
-			implies(app(">=", b0, "128"), and(app(">=", r, "128"), app("<=", r, "1114111"), app("<=", "1", w), app("<=", w, "4"))),
-			app("<=", app("+", pos, w), app("slen", str)))))
+		r := app("rune_at", str, pos)
+		w := app("rune_w", str, pos)
+		f.s.assume("range over a string follows the UTF-8 decoding chain axiomatised by rune_at/rune_w/rune_start")
 		f.vals[x] = TupleV{[]Val{S{ok, types.Typ[types.Bool]}, S{pos, types.Typ[types.Int]}, S{r, types.Typ[types.Rune]}}}
 		np := s.freshConst("itpos", "Int")
 		s.fact(eq(np, ite(ok, app("+", pos, w), pos)))
